@@ -350,6 +350,32 @@ class ClassInfo(object):
         return None
 
 
+def _without_annotations(tree):
+    """type annotations do not change what the code does: ``x: T = v`` is ``x = v``, a bare ``x: T`` is nothing, parameter and
+    return annotations are dropped - every analysis then sees the plain statements"""
+    class Strip(ast.NodeTransformer):
+        def visit_AnnAssign(self, node):
+            self.generic_visit(node)
+            if node.value is None:
+                return ast.copy_location(ast.Pass(), node)
+            return ast.copy_location(ast.Assign(targets=[node.target], value=node.value, type_comment=None), node)
+
+        def visit_FunctionDef(self, node):
+            self.generic_visit(node)
+            node.returns = None
+            for a in node.args.posonlyargs + node.args.args + node.args.kwonlyargs:
+                a.annotation = None
+            if node.args.vararg:
+                node.args.vararg.annotation = None
+            if node.args.kwarg:
+                node.args.kwarg.annotation = None
+            return node
+        visit_AsyncFunctionDef = visit_FunctionDef
+    tree = Strip().visit(tree)
+    ast.fix_missing_locations(tree)
+    return tree
+
+
 class Module(object):
     def __init__(self, name, path):
         self.name = name
@@ -357,7 +383,7 @@ class Module(object):
         with open(path, "rb") as f:
             self.source = f.read().decode("utf-8")
         try:
-            self.tree = ast.parse(self.source, filename=path)
+            self.tree = _without_annotations(ast.parse(self.source, filename=path))
         except SyntaxError as e:
             raise AnalysisError("cannot parse %s: %s" % (path, e))
         self.classes = {}
@@ -494,6 +520,24 @@ class Model(object):
         for m in self.modules.values():
             for c in m.classes.values():
                 self.classes[c.qname] = c
+        # a class of the pinned tree moved into another module of the package and imported back under its name: it keeps its
+        # pinned qualified name (the rules and the table of known functions speak of it under that name)
+        from .known_funcs import KNOWN_FUNCS
+        pinned_classes = set(q.rsplit(".", 1)[0] for q in KNOWN_FUNCS if q.count(".") == 2)
+        for pq in sorted(pinned_classes):
+            if pq in self.classes:
+                continue
+            mname, cname = pq.split(".")
+            home = self.modules.get(mname)
+            if home is None or cname not in home.imports:
+                continue
+            target = home.imports[cname].split(".")
+            if len(target) == 3 and target[0] == "productmd" and target[1] in self.modules and target[2] == cname \
+                    and cname in self.modules[target[1]].classes:
+                c = self.modules[target[1]].classes[cname]
+                del self.classes[c.qname]
+                c.qname = pq
+                self.classes[pq] = c
         for c in self.classes.values():
             for bn in c.base_names:
                 if bn is None:
